@@ -62,6 +62,43 @@ def build_obligation(inst):
             return [(z3.And(val == z(s.slice.start) + z(s.slice.step) * z(k), val >= 0, val < z(dtype)), None)]
         return ob
 
+    if kind == "slice_tensor":
+        # the index-tensor branch of the real Slice.eager_subs: values start + step * index AND the result keeps the
+        # Slice's own output dtype (the range it slices), not the index tensor's (round-6 seeded change)
+        def ob(mk):
+            from funsor.terms import Slice
+            start, stop, step, dtype = mk.int("start", 0), mk.int("stop", 0), mk.int("step", 1), mk.int("dtype", 0)
+            k = mk.int("k", 0)
+            if not mk.symbolic:
+                import numpy as np
+                from collections import OrderedDict
+                from funsor import Bint, Tensor
+                try:
+                    s = Slice("i", start, stop, step, dtype)
+                    n = s.inputs["i"].size
+                    if k >= n:
+                        return [(True, None)]
+                    r = s(i=Tensor(np.array([k, k]), OrderedDict(b=Bint[2]), n))
+                except (ValueError, AssertionError):
+                    return [(True, None)]
+                return [(bool(int(r.data[0]) == range(start, min(dtype, max(start, stop)), step)[k] and r.dtype == dtype and r.output == s.output), None)]
+            with raw_terms():
+                from funsor.terms import Slice as S2
+                try:
+                    s = S2("i", start, stop, step, dtype)
+                except (ValueError, AssertionError) as e:
+                    raise Decline(str(e))
+                mk.assume(k < s.inputs["i"].size)
+
+                class Tensor:       # eager_subs recognises the index tensor by its class NAME and rebuilds one
+                    def __init__(self, data, inputs, dtype="real"):
+                        self.data, self.inputs, self.dtype = data, inputs, dtype
+                r = s.eager_subs((("i", Tensor(k, {}, s.inputs["i"].size)),))
+            if not isinstance(r, Tensor):
+                return [(z3.BoolVal(False), None)]
+            return [(z3.And(z(r.data) == z(s.slice.start) + z(s.slice.step) * z(k), z(r.data) < z(dtype), z(r.dtype) == z(dtype)), None)]
+        return ob
+
     if kind == "slice_slice":
         _, max_step = inst
 
@@ -349,7 +386,7 @@ def instances(tier, seed):
     from lang.prog import subs, type_of
     from lang.gen import well_typed
     rng = random.Random(seed)
-    out = [("slice_number",), ("slice_slice", 4 if tier == "quick" else 8)]
+    out = [("slice_number",), ("slice_tensor",), ("slice_slice", 4 if tier == "quick" else 8)]
     for nparts in (1, 2, 3):
         out.append(("cat_number", nparts))
         for step in range(1, 5 if tier == "quick" else 9):
